@@ -15,8 +15,14 @@
 (*        dst     where each of them went, <<host, port>>                  *)
 (*        result  <<"return">> or <<"raise", exception class>>             *)
 (*        sv      fields of the returned "sv" struct (see ReturnedAgree)   *)
+(*        svdef   the struct file this call named: the bundled one except  *)
+(*                for these defaults, <<name, value below 2^31>>...        *)
+(*                (absent or empty: the bundled file)                      *)
 (*   <<"end", n>>   the process made n calls                               *)
-(* State st: the history - HistEntry of every boot so far.                 *)
+(*   <<"end", n, again>>  ... and again[k] is what the struct definitions  *)
+(*                  returned by call k say now, at the end of the process  *)
+(* State st: the history - HistEntry of every boot so far, with the        *)
+(* defaults of the struct file it named.                                   *)
 (***************************************************************************)
 EXTENDS Boot, Json, IOUtils
 
@@ -31,6 +37,16 @@ Ev == Tr.ev[ei]
 OptFun(q) == [name \in {q[i][1] : i \in 1..Len(q)} |-> q[CHOOSE i \in 1..Len(q) : q[i][1] = name][2]]
 Returned(r) == r.result[1] = "return"
 
+\* The system-variable table of the struct file a call named: the documented layout, with the defaults the
+\* caller's file gives.
+SvDef(r) == IF "svdef" \in DOMAIN r THEN r.svdef ELSE <<>>
+TblOf(r) == IF Len(SvDef(r)) = 0 THEN SvBundled
+            ELSE LET dv == OptFun(SvDef(r))
+                 IN [k \in 1..Len(SvBundled) |->
+                        IF SvBundled[k][1] \in DOMAIN dv
+                        THEN <<SvBundled[k][1], SvBundled[k][2], SvBundled[k][3], dv[SvBundled[k][1]], SvBundled[k][5]>>
+                        ELSE SvBundled[k]]
+
 Checks(e) ==
   CASE e[1] = "boot" ->
         LET r == e[2]
@@ -38,27 +54,41 @@ Checks(e) ==
         \* a boot may fail only when the environment made one of its send() calls fail (r.fault = 1); a boot that
         \* returns - fault or not - is judged in full
         IN IF ~Returned(r) THEN [BootCompletes |-> r.fault = 1]
-           ELSE LET bc == BootClauses(SvBundled, o, r.image, r.dg, st)
+           ELSE LET tb == TblOf(r)
+                    bc == BootClauses(tb, o, r.image, r.dg, st)
+                    cfg == CfgOf(IF Len(r.dg) >= 3 THEN Reassembled(r.dg) ELSE <<>>)
                 IN \* a leak also counts when it shows only in the returned structs (variables that are not sent)
-                [ OnlyOwnOptions       |-> bc.OnlyOwnOptions /\ LeakedReturnedNames(SvBundled, o, r.sv, st) = {} ] @@
+                [ OnlyOwnOptions       |-> bc.OnlyOwnOptions /\ LeakedReturnedNames(tb, o, r.sv, st) = {},
+                  \* equal options AND equal struct file: equal area (the defaults come from the struct file)
+                  ConfigDependsOnOwnOptionsOnly |->
+                      \A j \in 1..Len(st) : (st[j].opts = o /\ st[j].svdef = SvDef(r))
+                                                  => SameUnmasked(tb, st[j].cfg, cfg) ] @@
                 bc @@
                 [ BootCompletes        |-> TRUE,
-                  ReturnedStructsAgree |-> ReturnedAgree(SvBundled, o, r.dg, r.sv),
+                  ReturnedStructsAgree |-> ReturnedAgree(tb, o, r.dg, r.sv),
                   \* every datagram of this boot goes to the board this boot was asked to boot
                   SentToBootedBoard    |-> /\ Len(r.dst) = Len(r.dg)
                                            /\ \A i \in 1..Len(r.dst) : r.dst[i] = <<r.host, r.port>> ]
     [] e[1] = "end" ->
         \* (every event before this one was a boot, and each was judged - returned or not)
-        [ AllBootsJudged |-> e[2] = ei - 1 /\ ei = Len(Tr.ev) ]
+        [ AllBootsJudged |-> e[2] = ei - 1 /\ ei = Len(Tr.ev),
+          \* "the struct definitions returned describe the same values": what call k returned still describes
+          \* the values of call k after the later boots of the process (the caller keeps them, e.g. in its
+          \* MachineController) - nothing returned earlier is rewritten by a later boot
+          ReturnedStructsStayPut |->
+              Len(e) < 3 \/ /\ Len(e[3]) = ei - 1
+                            /\ \A k \in 1..Len(e[3]) : Tr.ev[k][1] = "boot" => e[3][k] = Tr.ev[k][2].sv ]
     [] OTHER -> [UnknownEvent |-> FALSE]
 
-Apply(e) == IF e[1] = "boot" /\ Returned(e[2]) THEN Append(st, HistEntry(OptFun(e[2].opts), e[2].dg)) ELSE st
+Apply(e) == IF e[1] = "boot" /\ Returned(e[2])
+            THEN Append(st, HistEntry(OptFun(e[2].opts), e[2].dg) @@ [svdef |-> SvDef(e[2])])
+            ELSE st
 
 \* diagnosis only: which fields leaked (empty unless OnlyOwnOptions fails)
 Detail(e) == IF e[1] = "boot" /\ Returned(e[2])
              THEN LET cfg == CfgOf(IF Len(e[2].dg) >= 3 THEN Reassembled(e[2].dg) ELSE <<>>)
-                  IN ToString(LeakedNames(SvBundled, OptFun(e[2].opts), cfg, st)
-                              \cup LeakedReturnedNames(SvBundled, OptFun(e[2].opts), e[2].sv, st))
+                  IN ToString(LeakedNames(TblOf(e[2]), OptFun(e[2].opts), cfg, st)
+                              \cup LeakedReturnedNames(TblOf(e[2]), OptFun(e[2].opts), e[2].sv, st))
              ELSE ""
 
 Bad == LET ck == Checks(Ev) IN {c \in DOMAIN ck : ~ck[c]}
